@@ -58,6 +58,7 @@ package sequencer
 //@ requires forall i int :: 0 <= i && i < len(s.bars) ==> (s.bars[i] != nil && s.bars[i].TimeSig[1] != 0)
 //@ requires forall i int :: 0 <= i && i < len(s.bars) ==> s.bars[i].Number == i
 //@ modifies s.bars[:], any(Bar).AbsTicks, s.lastTick
+//@ ensures [H] len(evts) == 0 || fresh(evts)
 //@ ensures [P:C20] forall i int :: 0 <= i && i < len(evts) ==> evts[i] != nil
 //@ ensures [P:C20] len(evts) > 0 ==> evts[0].Event.Delta == uint32(evts[0].AbsTicks)
 //@ ensures [P:C20] forall i int :: 1 <= i && i < len(evts) ==> evts[i].Event.Delta == uint32(evts[i].AbsTicks - evts[i-1].AbsTicks)
@@ -100,6 +101,7 @@ package sequencer
 //@ ensures [P:C20] forall i int :: 1 <= i && i < len(evts) ==> evts[i-1].AbsTicks <= evts[i].AbsTicks
 // (an end-of-track message among the events of a bar would close the exported track early: none is made up here)
 //@ ensures [P:C20] (forall i int :: 0 <= i && i < len(b.Events) ==> !isEOT(b.Events[i].Message)) ==> forall k int :: 0 <= k && k < len(evts) ==> !isEOT(evts[k].Event.Message)
+//@ ensures [P:C20] (forall i int :: 0 <= i && i < len(b.Events) ==> b.Events[i].TrackNo >= 0) ==> forall k int :: 0 <= k && k < len(evts) ==> evts[k].TrackNo >= 0
 //@ ensures [P:C20] len(evts) > 0 ==> evts[0].Event.Delta == uint32(evts[0].AbsTicks)
 //@ ensures [P:C20] forall i int :: 1 <= i && i < len(evts) ==> evts[i].Event.Delta == uint32(evts[i].AbsTicks - evts[i-1].AbsTicks)
 //@ loop 0 invariant -1 <= rangeindex && rangeindex < len(b.Events) && (len(evts) == 0 || fresh(evts))
@@ -107,11 +109,13 @@ package sequencer
 //@ loop 0 invariant forall i int :: 0 <= i && i < len(b.Events) ==> b.Events[i] != nil
 //@ loop 0 invariant forall i int :: 0 <= i && i < len(evts) ==> (evts[i] != nil && fresh(evts[i]))
 //@ loop 0 invariant distinctElems(evts)
+//@ loop 0 invariant (forall i int :: 0 <= i && i < len(b.Events) ==> b.Events[i].TrackNo >= 0) ==> forall k int :: 0 <= k && k < len(evts) ==> evts[k].TrackNo >= 0
 //@ loop 0 invariant (forall i int :: 0 <= i && i < len(b.Events) ==> !isEOT(b.Events[i].Message)) ==> forall k int :: 0 <= k && k < len(evts) ==> !isEOT(evts[k].Event.Message)
 //@ loop 0 decreases len(b.Events) - rangeindex
 //@ loop 1 invariant 0 <= i && i <= len(evts) && (len(evts) == 0 || fresh(evts))
 //@ loop 1 invariant forall k int :: 0 <= k && k < len(evts) ==> (evts[k] != nil && fresh(evts[k]))
 //@ loop 1 invariant distinctElems(evts)
+//@ loop 1 invariant (forall i int :: 0 <= i && i < len(b.Events) ==> b.Events[i].TrackNo >= 0) ==> forall k int :: 0 <= k && k < len(evts) ==> evts[k].TrackNo >= 0
 //@ loop 1 invariant (forall i int :: 0 <= i && i < len(b.Events) ==> !isEOT(b.Events[i].Message)) ==> forall k int :: 0 <= k && k < len(evts) ==> !isEOT(evts[k].Event.Message)
 //@ loop 1 invariant forall k int :: 1 <= k && k < len(evts) ==> evts[k-1].AbsTicks <= evts[k].AbsTicks
 //@ loop 1 invariant i == 0 ==> lasttick == 0
@@ -120,9 +124,74 @@ package sequencer
 //@ loop 1 invariant forall k int :: 1 <= k && k < i ==> evts[k].Event.Delta == uint32(evts[k].AbsTicks - evts[k-1].AbsTicks)
 //@ loop 1 decreases len(evts) - i
 
-// ToSMF0 / ToSMF1 are not under contract. ToSMF1 ranges over a map. ToSMF0 hands freshly made messages to
-// smf.(*Track).Add, whose contract describes the appended events in the caller's unchanged element heap (it
-// does not declare the reallocated backing array as fresh); with messages newer than that heap the
-// assumptions contradict the heap's well-formedness axiom, every obligation after the first Add would hold
-// vacuously (found by the vacuity guard that includes the quantified facts), and with the array declared
-// fresh the loops of ConvertToSMF1 no longer verify within the time limit. Left out rather than claimed.
+// single-track export: title, copyright, then the time-signature line and the events of all bars in tick
+// order, every event with the difference to the one before it as delta (the first one its absolute tick);
+// the end-of-track event closes the track at the end of the last bar
+//@ macro songOK(s) = (forall i int :: 0 <= i && i < len(s.bars) ==> (s.bars[i] != nil && s.bars[i].TimeSig[1] != 0 && s.bars[i].Number == i)) && (forall i int, j int :: (0 <= i && i < len(s.bars) && 0 <= j && j < len(s.bars[i].Events)) ==> (s.bars[i].Events[j] != nil && !isEOT(s.bars[i].Events[j].Message)))
+//@ func (*Song).ToSMF0
+//@ requires s != nil && songOK(s) && len(s.Title) < 268435456 && len(s.Composer) < 268435456
+//@ modifies s.Ticks, s.bars[:], any(Bar).AbsTicks, s.lastTick
+//@ ensures [P:C20] len(result.Tracks) == 1 && len(result.Tracks[0]) >= 3
+//@ ensures [P:C20] isEOT(result.Tracks[0][len(result.Tracks[0]) - 1].Message) && wfTrack(result.Tracks[0])
+//@ ensures [P:C20] result.Tracks[0][0].Delta == 0 && result.Tracks[0][1].Delta == 0
+// (the closing delta in general is last tick minus the tick of the last event: that needs the sum of the deltas,
+// which the contracts cannot name; decided here only for a song without events and signature changes)
+//@ ensures [P:C20] len(result.Tracks[0]) == 3 ==> result.Tracks[0][2].Delta == uint32(s.lastTick)
+//@ ensures [P:C20] typeof(result.TimeFormat) == typeid(smf.MetricTicks) && uint16(bval(result.TimeFormat)) == (old(s.Ticks) == 0 ? 960 : old(s.Ticks))
+//@ loop 0 invariant -1 <= rangeindex && rangeindex < len(s.bars) && (len(evts) == 0 || fresh(evts))
+//@ loop 0 invariant len(s.bars) == old(len(s.bars)) && forall i int :: 0 <= i && i < len(s.bars) ==> (s.bars[i] != nil && s.bars[i] == old(s.bars[i]))
+//@ loop 0 invariant old(forall i int, j int :: (0 <= i && i < len(s.bars) && 0 <= j && j < len(s.bars[i].Events)) ==> (s.bars[i].Events[j] != nil && !isEOT(s.bars[i].Events[j].Message)))
+//@ loop 0 invariant forall k int :: 0 <= k && k < len(evts) ==> (evts[k] != nil && !isEOT(evts[k].Event.Message))
+//@ loop 0 invariant len(t) == 2 && !isEOT(t[0].Message) && !isEOT(t[1].Message) && t[0].Delta == 0 && t[1].Delta == 0
+//@ loop 0 decreases len(s.bars) - rangeindex
+//@ loop 1 invariant 0 <= i && i <= len(evts) && len(t) == 2 + i && t[0].Delta == 0 && t[1].Delta == 0
+//@ loop 1 invariant forall k int :: 0 <= k && k < len(evts) ==> (evts[k] != nil && !isEOT(evts[k].Event.Message))
+//@ loop 1 invariant forall k int :: 1 <= k && k < len(evts) ==> evts[k-1].AbsTicks <= evts[k].AbsTicks
+//@ loop 1 invariant forall k int :: 0 <= k && k < len(t) ==> !isEOT(t[k].Message)
+//@ loop 1 invariant i == 0 ==> lasttick == 0
+//@ loop 1 invariant i > 0 ==> lasttick == evts[i-1].AbsTicks
+//@ loop 1 invariant i > 0 ==> t[2].Delta == uint32(evts[0].AbsTicks)
+//@ loop 1 invariant forall k int :: 1 <= k && k < i ==> t[2 + k].Delta == uint32(evts[k].AbsTicks - evts[k-1].AbsTicks)
+//@ loop 1 invariant forall k int :: 0 <= k && k < i ==> t[2 + k].Message == evts[k].Event.Message
+//@ loop 1 decreases len(evts) - i
+
+// multi-track export: the bar track (title, copyright, name, time-signature line), then one track per track
+// number that occurs among the events, each holding the events of that number in tick order
+//@ func (Song).ToSMF1
+//@ requires songOK(s) && len(s.Title) < 268435456 && len(s.Composer) < 268435456
+//@ requires forall i int, j int :: (0 <= i && i < len(s.bars) && 0 <= j && j < len(s.bars[i].Events)) ==> s.bars[i].Events[j].TrackNo >= 0
+//@ requires forall i int :: 0 <= i && i < len(s.TrackNames) ==> len(s.TrackNames[i]) < 268435456
+//@ modifies s.bars[:], any(Bar).AbsTicks
+//@ ensures [P:C20] len(result.Tracks) >= 1 && typeof(result.TimeFormat) == typeid(smf.MetricTicks) && uint16(bval(result.TimeFormat)) == (s.Ticks == 0 ? 960 : s.Ticks)
+//@ loop 0 invariant -1 <= rangeindex && rangeindex < len(barevts) && len(barTrack) == 4 + rangeindex
+//@ loop 0 invariant forall k int :: 0 <= k && k < len(barevts) ==> (barevts[k] != nil && len(barevts[k].Event.Message) == 7 && barevts[k].Event.Message[1] == 0x58)
+//@ loop 0 invariant forall k int :: 0 <= k && k < len(barTrack) ==> !isEOT(barTrack[k].Message)
+//@ loop 0 invariant (rangeindex == -1 ==> lastMessageAbs == 0) && (rangeindex >= 0 ==> lastMessageAbs == barevts[rangeindex].AbsTicks)
+//@ loop 0 invariant rangeindex >= 0 ==> (barTrack[3 + rangeindex].Delta == barevts[rangeindex].Event.Delta && barTrack[3 + rangeindex].Message == barevts[rangeindex].Event.Message)
+//@ loop 0 decreases len(barevts) - rangeindex
+//@ loop 1 invariant -1 <= rangeindex && rangeindex < len(s.bars) && (len(allevts) == 0 || fresh(allevts)) && len(sm.Tracks) == 1
+//@ loop 1 invariant len(s.bars) == old(len(s.bars)) && forall i int :: 0 <= i && i < len(s.bars) ==> (s.bars[i] != nil && s.bars[i] == old(s.bars[i]))
+//@ loop 1 invariant old(forall i int, j int :: (0 <= i && i < len(s.bars) && 0 <= j && j < len(s.bars[i].Events)) ==> (s.bars[i].Events[j] != nil && !isEOT(s.bars[i].Events[j].Message) && s.bars[i].Events[j].TrackNo >= 0))
+//@ loop 1 invariant forall k int :: 0 <= k && k < len(allevts) ==> (allevts[k] != nil && !isEOT(allevts[k].Event.Message) && allevts[k].TrackNo >= 0)
+//@ loop 1 decreases len(s.bars) - rangeindex
+//@ loop 2 invariant -1 <= rangeindex && rangeindex < len(allevts) && len(sm.Tracks) == 1
+//@ loop 2 invariant forall k int :: 0 <= k && k < len(allevts) ==> (allevts[k] != nil && !isEOT(allevts[k].Event.Message) && allevts[k].TrackNo >= 0)
+//@ loop 2 invariant forall x int :: maphas(settracks, x) ==> x >= 0
+//@ loop 2 decreases len(allevts) - rangeindex
+//@ loop 3 invariant (len(tracks) == 0 || fresh(tracks)) && len(sm.Tracks) == 1
+//@ loop 3 invariant forall k int :: 0 <= k && k < len(allevts) ==> (allevts[k] != nil && !isEOT(allevts[k].Event.Message) && allevts[k].TrackNo >= 0)
+//@ loop 3 invariant forall k int :: 0 <= k && k < len(tracks) ==> (mapget(settracks, tracks[k]) && tracks[k] >= 0)
+//@ loop 3 invariant forall x int :: maphas(settracks, x) ==> x >= 0
+//@ loop 4 invariant -1 <= rangeindex && rangeindex < len(tracks) && len(sm.Tracks) == 2 + rangeindex
+//@ loop 4 invariant forall k int :: 0 <= k && k < len(tracks) ==> (mapget(settracks, tracks[k]) && tracks[k] >= 0)
+//@ loop 4 invariant forall k int :: 0 <= k && k < len(allevts) ==> (allevts[k] != nil && !isEOT(allevts[k].Event.Message) && allevts[k].TrackNo >= 0)
+//@ loop 4 invariant forall k int :: 1 <= k && k < len(allevts) ==> allevts[k-1].AbsTicks <= allevts[k].AbsTicks
+//@ loop 4 decreases len(tracks) - rangeindex
+//@ loop 5 invariant -1 <= rangeindex$5 && rangeindex$5 < len(allevts) && len(sm.Tracks) == 1 + (rangeindex$4 + 1)
+//@ loop 5 invariant mapget(settracks, trackno) && forall k int :: 0 <= k && k < len(tracks) ==> (mapget(settracks, tracks[k]) && tracks[k] >= 0)
+//@ loop 5 invariant forall k int :: 0 <= k && k < len(allevts) ==> (allevts[k] != nil && !isEOT(allevts[k].Event.Message) && allevts[k].TrackNo >= 0)
+//@ loop 5 invariant forall k int :: 1 <= k && k < len(allevts) ==> allevts[k-1].AbsTicks <= allevts[k].AbsTicks
+//@ loop 5 invariant len(t) >= 1 && forall k int :: 0 <= k && k < len(t) ==> !isEOT(t[k].Message)
+//@ loop 5 invariant (forall j int :: 0 <= j && j <= rangeindex$5 ==> allevts[j].TrackNo != trackno) ==> lasttick == 0
+//@ loop 5 invariant (rangeindex$5 >= 0 && allevts[rangeindex$5].TrackNo == trackno) ==> (lasttick == allevts[rangeindex$5].AbsTicks && t[len(t) - 1].Message == allevts[rangeindex$5].Event.Message)
+//@ loop 5 decreases len(allevts) - rangeindex$5
